@@ -201,4 +201,8 @@ PROPS = {
                             'symbolic: is_removal <=> now >= civil instant - offset against an independent Rata-Die reference in 64-bit arithmetic (equality '
                             'included); monotonicity with two symbolic instants; malformed classes (incl. one symbolic byte at each separator) never ready; '
                             'boundary-second probes through the real clean with negative / positive / colon-less offsets.'),
+    'C19': dict(jobs=props_pipe.c19_jobs, tv=('front', 'pipe'), assumptions=PIPE_ASSUME + ['holes never contain delimiter characters (the statement restricts itself to such sources)'],
+                explanation='Histories inside one symbolic path: clean(...clean(x, c1)..., cn) against clean(x, cn) for non-decreasing times (2000 / 2005 / 2015 '
+                            'against expiries 2001 / 2010 / 2999) and growing target sets, compared modulo blanks by a DP alignment decided by z3; and '
+                            'clean(clean(x, c), c) == clean(x, c) byte for byte. The second run works on the symbolic output of the first.'),
 }
